@@ -178,3 +178,17 @@ Theorem C09_challenge_other_str_fails_utf8 : forall (H : hashT),
   challenge H utf8_enc (stored_of a salt (H a (salt ++ bs))) (PStr t) = Err EValue.
 Proof. exact challenge_other_str_fails_utf8. Qed.
 Print Assumptions C09_challenge_other_str_fails_utf8.
+
+(* the concrete base64 codec of the correspondence stream (CPython's lenient decoder) gives the bytes back,
+   so for it the base64 premise disappears as well: salt and digest survive save/load for ANY hash function *)
+Theorem C09_b64_roundtrip : forall b, Forall byte b -> b64_decode (b64_encode b) = Some b.
+Proof. exact b64_roundtrip. Qed.
+Print Assumptions C09_b64_roundtrip.
+
+Theorem C09_saveload_keeps_b64 : forall (H : hashT) ds (utf8 : encT) a req dflt st salt d r1 dv,
+  Forall byte salt -> Forall byte d ->
+  c_val st = PDigest salt d a ->
+  setdefault H ds utf8 a (c_rng st) dflt = (r1, Ok dv) ->
+  cfg_saveload H ds utf8 b64_encode b64_decode a req dflt st = (mk_cst r1 (c_val st), Ok (c_val st)).
+Proof. exact saveload_keeps_b64. Qed.
+Print Assumptions C09_saveload_keeps_b64.
